@@ -61,6 +61,10 @@ def run_check(prop, tier):
     for l in lists:
         for a in allocs:
             runs.append(E.R(l, a, "hist", nmax=2 if q else 3, cmax=2, bmax=3 if q else 4, depth=3 if q else 5, junk=1))
+    # an allocator with select_on_container_copy_construction: copies of the shared object must not allocate through
+    # the source's allocator instance
+    for l in (["F3", "V1", "V3"] if q else ["P3", "F1", "F3", "V1", "V3", "M2"]):
+        runs.append(E.R(l, "NPS", "hist", nmax=2, cmax=2, bmax=3, depth=3, junk=1))
     internal = []
     rt, log = build_rt()
     if rt is None:
